@@ -366,3 +366,127 @@ for _c in SUBCLASS_LIFECYCLE:
 
 ALL = SUBCLASS_LIFECYCLE + [FromQRun, FromQRunResumed, SourceInit, SourceStart, SourceStop, SourceRunHead, SourceRunAfterCycle, FromIterableRun, FromIterableRunResumed,
        FromPeriodicRun, FromPeriodicRunSleep]
+
+
+# --------------------------------------------------------------------------- from_tcp: the per-connection handler
+class TcpHandler(SourceSeg):
+    """`EmitServer.handle_stream` (a coroutine method of a class defined inside from_tcp.run): one cycle = one read_until + one
+    emission.  A new read begins only while the source is running (a connection that stays open across stop() may finish the read
+    it is suspended in, nothing more)."""
+    cls = 'from_tcp'
+    method = 'run'
+    start = 0
+    props = ['C18']
+    harness = None
+    resume_exc = False
+    reentrancy_generic = False
+    assumptions = SourceSeg.assumptions + (
+        'IOStream.read_until(delimiter) is an opaque awaitable yielding the next delimiter-terminated chunk or raising '
+        'StreamClosedError (tornado, trusted)',)
+
+    def __init__(self):
+        SourceSeg.__init__(self)
+        self.name = 'from_tcp.run.<locals>.EmitServer.handle_stream@%d%s' % (self.start, '[connection closed]' if self.resume_exc else '')
+
+    def make_self(self, I):
+        f = SourceSeg.make_self(self, I)
+        f['delimiter'] = VElem(z3.Const('delimiter', sym.Elem))
+        f['server'] = VRef(z3.Const('server', sym.Obj), 'Server')
+        I.st.ghost['reads'] = VTuple([])
+        return f
+
+    def unit(self, I, index):
+        from pyvc.repoindex import locate_nested
+        rel, fnode = index.function('from_tcp.run')
+        fn = locate_nested(fnode, 'handle_stream')
+        self.qual_resolved = 'from_tcp.run'
+        f = sym.VFunc('from_tcp.run.<locals>.EmitServer.handle_stream', fn)
+
+        def run(I):
+            st = State()
+            I.st = st
+            self.init_ghost(st)
+            self.init_async_ghost(st)
+            fields = self.base_fields()
+            fields.update(self.make_self(I))
+            src = st.new_obj('from_tcp', fields)
+            server = st.new_obj('EmitServer', {'source': src})
+            stream = VRef(z3.Const('stream', sym.Obj), 'IOStream')
+            loc = {'self': server, 'stream': stream, 'address': VElem(z3.Const('address', sym.Elem))}
+            data = VElem(z3.Const('data', sym.Elem))
+            st.ghost['data'] = data
+            st.ghost['source'] = src
+            self.pre_args = dict(loc)
+            self.pre_state = st.snapshot()
+            st.ghost['_pre'] = (self.pre_state, self.pre_args)
+            I.contract_pre = self.pre_state
+            I.contract_pre_frame = self.pre_frame(I)
+            fr = Frame(f.qual, loc)
+            outer = Frame('from_tcp.run', {'self': src, 'StreamClosedError': sym.VClass('StreamClosedError'),
+                                           'TCPServer': sym.VClass('TCPServer')})
+            fr.closure = outer
+            if self.start == 0:
+                res = None
+            elif self.resume_exc:
+                res = Resume(exc=sym.VExc('StreamClosedError'))
+            else:
+                res = Resume(data)
+            try:
+                v = I.run_segment(f, fr, self.start, res)
+            except Exception as e:
+                if hasattr(e, 'frame') and getattr(e, 'frame', None) is None:
+                    e.frame = fr
+                raise
+            return v, fr
+        return run
+
+    def globals(self):
+        d = SourceSeg.globals(self)
+        d['isawaitable'] = VBuiltin('inspect.isawaitable')
+        return d
+
+    def summaries(self):
+        d = SourceSeg.summaries(self)
+
+        def read_until(I, recv, args, kwargs):
+            g = I.st.ghost
+            g['reads'] = VTuple(g['reads'].items + [args[0]])
+            return VAw(z3.Const(sym.fresh_name('read'), sym.Aw))
+        d['IOStream.read_until'] = read_until
+        return d
+
+    def spec_funcs(self):
+        d = SourceSeg.spec_funcs(self)
+
+        def call_default(I, kind, name, recv, args, kwargs):
+            if kind == 'method' and isinstance(recv, VRef) and recv.cls == 'IOStream':
+                # any other query of the connection (closed(), reading(), ...): an unknown answer
+                return VElem(z3.Const(sym.fresh_name('stream_' + name.split('.')[-1]), sym.Elem))
+            raise Unsupported('call of %s %s in the connection handler' % (kind, name))
+        d['call_default'] = call_default
+        return d
+
+    def clauses(self):
+        out = [Clause('C18.a_new_read_begins_only_while_the_source_is_running', ['C18'], when='yield:1',
+                      text='not source.stopped and len(reads) == 1 and reads[0] == source.delimiter',
+                      note='P2: after stop() the read in progress may complete, no further read (cycle) is started on the connection'),
+               Clause('C18.handler_ends_when_the_source_is_stopped_or_the_connection_closed', ['C18'], when='return',
+                      text='len(reads) == 0 and (source.stopped or %s)' % ('True' if self.resume_exc else 'False'))]
+        if self.start == 1 and not self.resume_exc:
+            out.append(Clause('C18.one_emission_per_completed_read', ['C18'], when='any', text='emitted == [data]'))
+        else:
+            out.append(Clause('C18.nothing_emitted_without_a_completed_read', ['C18'], when='any', text='emitted == []'))
+        return out
+
+
+class TcpHandlerResumed(TcpHandler):
+    start = 1
+
+
+class TcpHandlerClosed(TcpHandler):
+    start = 1
+    resume_exc = True
+
+
+ALL_TCP = [TcpHandler, TcpHandlerResumed, TcpHandlerClosed]
+ALL = ALL + ALL_TCP
